@@ -76,6 +76,8 @@ def partition_cases(draw, algs=None, presentations=None, oracle=False, max_bins=
             pd = draw(st.sampled_from([None, None, 1, 2, 3]))
             if pd is not None:
                 opts["partition_difference"] = pd
+        if opts and draw(st.integers(0, 7)) == 0:
+            opts = {}                  # the library's own defaults (default objective = difference, default switches, default iterations)
         if opts:
             case["opts"] = opts
     return case
